@@ -116,6 +116,15 @@ func (e *env) prototypes(c *config.Configuration) {
 			"claims": `{"who": {{ quote .Subject.ID }} }`,
 		}, "ttl", t)))
 	}
+	for i, h := range jwksHTTPSpecs {
+		p.Authenticators = append(p.Authenticators, mech(fmt.Sprintf("jwth-%d", i), "jwt", map[string]any{
+			"jwks_endpoint": map[string]any{"url": S + "/jwks/{{ .TokenIssuer }}?" + h.query("p"),
+				"http_cache": map[string]any{"enabled": true, "default_ttl": h.DefaultTTL.String()}},
+			"assertions":  map[string]any{"issuers": []string{"placeholder"}},
+			"trust_store": e.pki.TrustStorePath,
+			"cache_ttl":   "0s",
+		}))
+	}
 	ccDeltas = append([]*int{}, ccFixedDeltas...)
 	ccDeltas = append(ccDeltas, randomDeltas(e.r.Stream("cc-deltas"), e.r.Pick(6, 30), 5)...)
 	seen := map[string]bool{}
